@@ -94,6 +94,16 @@ def run(tier="quick"):
             ("the extra handler's request was answered by someone else", i_extra, lambda e: e.update(gottag=""), "ExtraHandlersKept"),
             ("a path outside every prefix was served", i_out, lambda e: e.update(gottag=""), "OutsideNotServed"),
         ])
+        # ---- Pool (HttpBody uploads)
+        evs = _drive(scratch, harness, "conc", [dict(fam="upload", id=1, len=100, limit=16, mode="broken"), dict(fam="upload", id=2, len=40, limit=16, mode="plain")], "pool",
+                     extra=("-workers", "2"))
+        evs = sorted(evs, key=lambda e: e["case"])
+        total += _engine(scratch, "Pool", "PoolTrace.tla", "PoolTrace.cfg", evs, [
+            ("an upload that broke off ended cleanly for the handler", 1, lambda e: e.update(end="eof"), "BrokenUploadIsError"),
+            ("a complete upload arrived incomplete", 2, lambda e: e.update(concat=False), "UploadComplete"),
+            ("a chunk larger than the limit", 2, lambda e: e.update(overlimit=True), "ChunkLimit"),
+            ("a retained chunk changed afterwards", 2, lambda e: e.update(stable=False), "RetainedStable"),
+        ])
         print("selftest: %d corruptions, all rejected" % total)
         return 0
     finally:
